@@ -135,3 +135,71 @@ theorem poincareSphere_closed (hr : IsSqrt r) (m : Fin n → K) (h0 : 0 < nsq m)
 
 end ordered
 end GT.Circle
+
+/-! ### `poincare_to_halfspace` is an inversion: the distance formula -/
+namespace GT.Circle
+open GT.Targets
+
+section field
+variable {K : Type*} [Field K] {n : ℕ}
+
+/-- the denominator of `poincare_to_halfspace`: squared distance to the pole `(1,0,…,0)` -/
+def poleDist (p : Fin (n + 1) → K) : K := nsq (Fin.tail p) + (p 0 - 1) * (p 0 - 1)
+
+theorem nsq_init_last (v : Fin (n + 1) → K) : nsq v = nsq (Fin.init v) + v (Fin.last n) ^ 2 := by
+  unfold nsq dot; rw [Fin.sum_univ_castSucc]; simp [Fin.init, pow_two]
+
+theorem nsq_head_tail (v : Fin (n + 1) → K) : nsq v = v 0 ^ 2 + nsq (Fin.tail v) := by
+  unfold nsq dot; rw [Fin.sum_univ_succ]; simp [Fin.tail, pow_two]
+
+theorem dot_head_tail (v w : Fin (n + 1) → K) :
+    dot v w = v 0 * w 0 + dot (Fin.tail v) (Fin.tail w) := by
+  unfold dot; rw [Fin.sum_univ_succ]; simp [Fin.tail]
+
+theorem nsq_lin (a b : K) (x y : Fin n → K) :
+    nsq (fun i => a * x i + b * y i) = a ^ 2 * nsq x + 2 * a * b * dot x y + b ^ 2 * nsq y := by
+  unfold nsq
+  rw [dot_lin_left, dot_lin_right, dot_lin_right, dot_comm y x]; ring
+
+theorem poleDist_eq (p : Fin (n + 1) → K) : poleDist p = nsq p - 2 * p 0 + 1 := by
+  unfold poleDist; rw [nsq_head_tail]; ring
+
+/-- `|p2h(p) - p2h(q)|² = 4|p - q|² / (|p - e|²|q - e|²)`, `e` the pole -/
+theorem nsq_p2h_sub (p q : Fin (n + 1) → K) (hp : poleDist p ≠ 0) (hq : poleDist q ≠ 0) :
+    nsq (fun i => p2h p i - p2h q i)
+      = 4 * nsq (fun i => p i - q i) / (poleDist p * poleDist q) := by
+  have hp' : nsq (Fin.tail p) + (p 0 - 1) * (p 0 - 1) ≠ 0 := hp
+  have hq' : nsq (Fin.tail q) + (q 0 - 1) * (q 0 - 1) ≠ 0 := hq
+  rw [nsq_init_last]
+  have hinit : Fin.init (fun i => p2h p i - p2h q i)
+      = fun i => (-2 / poleDist p) * Fin.tail p i + (2 / poleDist q) * Fin.tail q i := by
+    funext i
+    simp only [Fin.init, p2h, Fin.snoc_castSucc, poleDist]
+    field_simp
+    ring
+  have hlast : p2h p (Fin.last n) - p2h q (Fin.last n)
+      = (1 - nsq (Fin.tail p) - p 0 * p 0) / poleDist p
+        - (1 - nsq (Fin.tail q) - q 0 * q 0) / poleDist q := by
+    simp only [p2h, Fin.snoc_last, poleDist]
+  rw [hinit, hlast, nsq_lin]
+  have hsub : nsq (fun i => p i - q i)
+      = (p 0 - q 0) ^ 2 + (nsq (Fin.tail p) - 2 * dot (Fin.tail p) (Fin.tail q) + nsq (Fin.tail q)) := by
+    rw [nsq_head_tail]
+    have : Fin.tail (fun i => p i - q i) = fun i => Fin.tail p i - Fin.tail q i := rfl
+    rw [this, nsq_sub]
+  rw [hsub]
+  have eP : poleDist p = nsq (Fin.tail p) + (p 0 - 1) * (p 0 - 1) := rfl
+  have eQ : poleDist q = nsq (Fin.tail q) + (q 0 - 1) * (q 0 - 1) := rfl
+  generalize poleDist p = Dp at *
+  generalize poleDist q = Dq at *
+  generalize nsq (Fin.tail p) = A at *
+  generalize nsq (Fin.tail q) = B at *
+  generalize dot (Fin.tail p) (Fin.tail q) = C at *
+  generalize p 0 = y at *
+  generalize q 0 = z at *
+  field_simp
+  rw [eP, eQ]
+  ring
+
+end field
+end GT.Circle
